@@ -24,7 +24,7 @@ def synth (cfg : CheckCfg) : List OTy → Node → Option OTy
   | _, .float _ _ => some floatTy
   | _, .bool _ _ => some boolTy
   | _, .str _ _ => some stringTy
-  | _, .const _ _ => none
+  | _, .const _ v => if cfg.dt.constNodePanic then none else some (typeOfVal v)
   | cs, .unary _ op x =>
     match synth cfg cs x with
     | some t => Except.toOption' (unaryRule op t)
